@@ -48,8 +48,14 @@ structure Cfg where
   chk : Nat → List (Option Nat) → Nat → Tri := fun _ _ _ => .raises
 
 /-- what a dict entry of the table is: a registered handler, or a generated dependent dispatcher over
-    the handlers of one rank that falls through to the entry of the next rank (`noNext`: raises) -/
-inductive Entry | meth (id : Nat) | dep (handlers : List Nat) (next : Entry) | noNext
+    the handlers of one rank that falls through to the entry of the next rank (`noNext`: raises "No method";
+    `ambNext ids`: the rank below is tied, raises its ambiguity) -/
+inductive Entry
+  | meth (id : Nat)
+  | dep (handlers : List Nat) (next : Entry)
+  | noNext
+  /-- falling through into a tied rank: raises that rank's ambiguity (`fix:` for finding D20) -/
+  | ambNext (ids : List Nat)
 deriving DecidableEq, Repr, Inhabited
 
 section
@@ -129,7 +135,7 @@ def mkRanks : List (List Cand) → List (Rank Entry (List Nat))
     let ids := g.map (·.id)
     let dependent := ids.any (fun id => ((findMeth ms id).map Meth.dependent).getD false)
     let nxt : Entry := match below with
-      | r :: _ => (match r.func with | some e => e | none => Entry.noNext)
+      | r :: _ => (match r.func with | some e => e | none => Entry.ambNext r.err)
       | [] => Entry.noNext
     let func : Option Entry :=
       if dependent then some (Entry.dep ids nxt)
@@ -179,7 +185,8 @@ def MMap.lookup (cfg : Cfg) (mm : MMap) (ck : CKey Key) : MMap × Res Entry (Lis
   | (none, []) =>
     (mm, match mm.empty with | some id => .ok (.meth id) | none => .noMethod)
   | (some _, []) =>
-    (mm, match mm.empty with | some _ => .keyError | none => .noMethod)
+    -- `call_next()` without arguments: nothing is below the entry of the empty call (`fix:` for finding D24)
+    (mm, .noMethod)
   | (c, k) =>
     let resolves := (mm.st.cache (c, k)).isNone && (mm.st.cache (none, k)).isNone
     let (st', r) := Ovld.lookup (plan cfg mm.meths) mm.st (c, k)
